@@ -84,6 +84,18 @@ CHECKS = {
         text="Failing and accepted inputs (corpus plain / CRLF / multi-byte prefix, injected lexical faults with a known lexeme, mutants, generated programs, import closures with faults in imported modules, a six-import module in random file orders, token soup) are compiled in three separate worker processes: every code must have a heading in docs/errors.md, every primary location must lie inside the named input and start on the reported line, injected lexemes must be covered by a diagnostic of their documented code, every diagnostic must render in 4 colour/charset configurations, and verdict, ordered diagnostics and IR text must be identical across the processes.",
         note="'Covers the offending text' is decidable only for injected lexical faults (injected into files that compile cleanly so nothing can mask them).",
         design="5 C13"),
+    "C14": dict(
+        category="exploration",
+        technique="runtime monitor: differential comparison of the two real lexers' normal forms over exhaustively enumerated short strings, plus a by-construction oracle for generated token sequences and injected illegal lexemes",
+        text="All strings of length <= 3 (quick) / <= 4 (thorough) over a 45-character alphabet and longer ones over literal and quote/escape sub-alphabets are enumerated inside the worker and lexed by both lexers (kinds, payloads, suffix types, byte spans, lines, error codes and positions compared); token sequences built by a generator that knows every token's kind, value, span and line (random spellings, whitespace, comments, CRLF) must be reproduced exactly by both; illegal lexemes embedded in valid text must be reported with their documented code at their position; corpus, mutants and token soup go through the differential comparison.",
+        note="Instead of a third reference lexer the oracle for valid input is construction (the generator owns the token list) and for arbitrary input the agreement of the two implementations. `return` (identifier vs keyword) is the sanctioned difference; inputs containing `return!` are skipped.",
+        design="5 C14"),
+    "C19": dict(
+        category="exploration",
+        technique="runtime monitor: both lexers as oracles over texts emitted by the real fuzzer (library call and CLI), seeded through hook H2",
+        text="Hundreds (quick) to thousands (thorough) of texts of 1-64 KB from fill_to_capacity_with_tokens with the CLI's arguments, and from the real `penne fuzz tokens --kb N --out-dir D`, must be valid UTF-8 of at least N KiB and lex without a single error in both lexers; the evidence lists the token-kind histogram and the (previous family, next family, glued) adjacency pairs observed.",
+        note="Reach is over the fuzzer's internal random choices; seeds are recorded so a failing text can be regenerated, and the text itself is saved in the replay file.",
+        design="5 C19"),
 }
 
 
